@@ -149,6 +149,9 @@ def check_criteria(x, p, name, tag):
 
 
 def replay(rep):
+    if rep['replay'].get('protocol') == 'values_only':
+        from props import _purity
+        return _purity.replay_protocol(rep['replay'])
     r = rep['replay']; x = vlib.unhexv(r['x'])
     if r.get('criteria'):
         return not check_criteria(x, r['order'], r['criteria'], 'replay')
@@ -270,3 +273,7 @@ def run(ctx):
             for key, what in check_arburg2(x, p, tag):
                 ctx.violation(key, what, {'function': '_arburg2', 'x': vlib.hexv(x), 'order': p})
             ctx.case(('search-burg2', x.tobytes(), p), nontrivial=(p >= 2))
+
+    # ---------------- results depend on the VALUES given only: call protocol (repeat, aliasing, buffer reuse, memory layout, integer / single-precision dtypes)
+    from props import _purity
+    _purity.run_protocol(ctx, ['arburg', 'arburg_criteria', '_arburg2'])
